@@ -2,6 +2,7 @@ package rules
 
 import (
 	"fmt"
+	"go/constant"
 	"go/types"
 	"sort"
 	"strings"
@@ -116,6 +117,25 @@ func exposerTable(c *core.Ctx, l *lifecycleRoles) (rs rows, runs int, undecided 
 			if b, ok := typ.Underlying().(*types.Basic); ok && b.Kind() == types.Bool && obj == f {
 				st.allow = ip.Choose(2, "allowCircularReferences") == 0
 				return absint.Bool(st.allow)
+			}
+			if b, ok := typ.Underlying().(*types.Basic); ok && b.Info()&types.IsInteger != 0 && obj == f {
+				// a policy field of a small named type: the factory only ever holds the one constant it is constructed with
+				if named := core.NamedOf(ex.Signature.Recv().Type()); named != nil {
+					if stores, _ := c.FieldAccesses(named, fname); len(stores) > 0 {
+						var only *ssa.Const
+						for _, s2 := range stores {
+							k, isK := s2.Store.Val.(*ssa.Const)
+							if !isK || k.Value == nil || (only != nil && only.Value.ExactString() != k.Value.ExactString()) {
+								return nil
+							}
+							only = k
+						}
+						if v, isInt := constant.Int64Val(only.Value); isInt {
+							st.allow = true
+							return absint.Int(v)
+						}
+					}
+				}
 			}
 			return nil
 		}
